@@ -15,7 +15,7 @@ RULE = ("case = one random alias configuration: 2-3 fields (identity / converted
         "sources at once to exercise precedence), aliases that shadow another field's name or alias (chains and "
         "cycles), allow_deserialization_not_by_alias x forbid_extra_keys, optional class-level discriminator field. "
         "For the configuration ALL subsets of the candidate key set {names, every alias, 'None', a stranger} (<= 2^9) "
-        "are fed to from_dict, each key carrying a distinct value. Oracle KEYMODEL: which key each field reads, "
+        "are fed to from_dict (Annotated metadata that is not an Alias mixed in; optionally an init=False member whose name is a candidate key), each key carrying a distinct value. Oracle KEYMODEL: which key each field reads, "
         "MissingField for the first unreadable required field, ExtraKeysError with exactly the unexpected keys. "
         "distinct_nontrivial = distinct (configuration, key subset) pairs.")
 ASSUMPTIONS = ["exhaustive over key subsets per configuration; configurations are random"]
@@ -82,7 +82,11 @@ def run_case(seed, tier, rec, st):
         for i, f in enumerate(fields):
             ann = TYPES[f["tk"]][0]
             if f["ann"] is not None:
-                ann = f"Annotated[{ann}, Alias({f['ann']!r})]"
+                extra = rng.choice(["", "", "'doc', ", "Minimum(0), "]) if f["tk"] in ("int", "oint") else rng.choice(["", "", "'doc', "])
+                ann = f"Annotated[{ann}, {extra}Alias({f['ann']!r})]"
+            elif rng.random() < 0.3:
+                # Annotated carrying something that is NOT an alias: every other alias source still applies
+                ann = f"Annotated[{ann}, {rng.choice([repr('doc'), 'Maximum(10**9)' if f['tk'] in ('int', 'oint') else repr('note')])}]"
             args = []
             if f["default"]:
                 args.append("default=None" if f["tk"] in ("oint", "any") and rng.random() < 0.5 else f"default=_DEF[{i}]")
@@ -90,6 +94,10 @@ def run_case(seed, tier, rec, st):
             if f["meta"] is not None:
                 args.append(f"metadata=field_options(alias={f['meta']!r})")
             lines.append(f"    {f['name']}: {ann}" + (f" = field({', '.join(args)})" if args else ""))
+        noinit = rng.random() < 0.25
+        if noinit:
+            # a member that is not a constructor parameter: its name is never an accepted key
+            lines.append("    ni: int = field(default=0, init=False)")
         lines.append("    class Config(BaseConfig):")
         lines.append(f"        allow_deserialization_not_by_alias = {allow}")
         lines.append(f"        forbid_extra_keys = {forbid}")
@@ -110,6 +118,7 @@ def run_case(seed, tier, rec, st):
             w = TYPES[f["tk"]][1](50 + i)
             DEF.append(TYPES[f["tk"]][2](w))
         fam.module._DEF = DEF
+        fam.exec_src("from mashumaro.jsonschema.annotations import Minimum, Maximum\n")
         try:
             fam.exec_src(src)
         except Exception as e:
@@ -138,11 +147,11 @@ def run_case(seed, tier, rec, st):
             for k in (f["name"], f["meta"], f["ann"], f["cfg"]):
                 if k is not None and k not in cand:
                     cand.append(k)
-        for k in ("None", "stranger") + (("kind",) if discr else ()):
+        for k in (("ni",) if noinit else ()) + ("None", "stranger") + (("kind",) if discr else ()):
             if k not in cand:
                 cand.append(k)
-        cand = cand[:9]
-        cfg_sig = (tuple((f["tk"], f["default"], f["meta"], f["ann"], f["cfg"]) for f in fields), allow, forbid, discr)
+        cand = cand[:10]
+        cfg_sig = (tuple((f["tk"], f["default"], f["meta"], f["ann"], f["cfg"]) for f in fields), allow, forbid, discr, noinit)
         sampled = False
         # each candidate key carries a value valid for every field type that may read it
         for mask in itertools.product([False, True], repeat=len(cand)):
@@ -179,7 +188,7 @@ def run_case(seed, tier, rec, st):
                 if exp is None:
                     exp = ("ok", res)
             det = lambda **kw: dict({"source": src, "input": common.short(d, 300)}, **kw)
-            facts = {"allow": allow, "forbid": forbid, "discriminator": discr, "none_key_present": "None" in present}
+            facts = {"allow": allow, "forbid": forbid, "discriminator": discr, "none_key_present": "None" in present, "init_false_member": noinit}
             try:
                 r = dec(dict(d))
                 got = ("ok", {f["name"]: getattr(r, f["name"]) for f in fields})
